@@ -9,7 +9,7 @@ import vlib
 from props import c01
 
 LEVEL = "proof"
-RULE = ("pairs (Y, X) with the correction flag ON run through the real mutual_info_estimator_numba(int32, int32, float32(1.0), "
+RULE = ("self pairs (V, V) of every family (all-distinct, constant, singleton strata, Zipf, sparse, ...) and pairs (Y, X) with the correction flag ON run through the real mutual_info_estimator_numba(int32, int32, float32(1.0), "
         "True) and through the Coq transcription (term structure incl. the displaced class counts), C01 families; plus the "
         "heuristic-name -> flag wiring of importance_estimator.numba_mi (ast, fail closed, and driven at run time); plus, as a "
         "SUPPORTING statistic only, the planted-signal ranking family at n = 4000; non-trivial = both sides take >= 2 values "
@@ -168,6 +168,7 @@ def check(run, replay):
     else:
         cases = c01.load_corpus("C03")
         cases += c01.gen_pairs(run.rng, run.tier, 230 if run.tier == "quick" else 1300, [True])
+        cases += c01.gen_self_pairs(run.rng, True, per_family=2 if run.tier == "quick" else 8)
         if run.tier == "thorough":
             cases += c01.exhaustive_pairs(True)
         seeds = 20 if run.tier == "quick" else 100
@@ -190,6 +191,15 @@ def check(run, replay):
             if s < 2 and name in ("inf", "noise2", "noise8"):
                 cases.append({"Y": Yf, "X": X, "flag": True, "fam": "planted-" + name})
 
+    # long self pairs (diagonal of the rank graph) for the slow-to-model vectors: expected value H(V) via py_terms
+    if seeds:
+        n = 4000
+        ident = list(range(n))
+        run.rng.shuffle(ident)
+        for name, v in (("self-alldistinct", ident), ("self-alldistinct-sparse", c01._recode_sparse(run.rng, ident)),
+                        ("self-zipf", c01._zipf(run.rng, n, 300)), ("self-constant", [3] * n),
+                        ("self-singleton-heavy", [i if i % 3 else 0 for i in range(n)])):
+            pl.append({"Y": v, "X": list(v), "flag": True, "seed": -1, "feat": name})
     payload_cases = [{"Y": c["Y"], "X": c["X"], "flag": c["flag"]} for c in cases + pl]
     out = vlib.run_impl("impl_c01.py", {"cases": payload_cases, "wiring": replay is None or wiring_replay,
                                         "wiring_names": WIRING_NAMES, "wiring_pair": WIRING_PAIR})
@@ -252,12 +262,13 @@ def check(run, replay):
                 ident_bad += 1
                 if ident_bad == 1 and nbad == 0:
                     small = c01.shrink_pair_case("C03", {"Y": c["Y"], "X": c["X"], "flag": c["flag"], "fam": "planted"})
-                    run.violation("counterexample", "correspondence on the planted family (expected value from the Python "
-                                  "transcription of the model)", case=small, impl=info.get("impl", info.get("impl_error")),
+                    run.violation("counterexample", "correspondence on the planted family / long self pairs (expected value from "
+                                  "the Python transcription of the model)", case=small, impl=info.get("impl", info.get("impl_error")),
                                   model={"value": info["model"], "tolerance": info["tolerance"]},
-                                  clause="score = H(Y*|X) - H(Y|X) / plug-in MI on a planted-signal pair")
+                                  clause=("a feature scored against itself scores its entropy (C03_self)" if c["Y"] == c["X"] else
+                                          "score = H(Y*|X) - H(Y|X) / plug-in MI on a planted-signal pair"))
             score[(c["seed"], c["feat"], c["flag"])] = info.get("impl")
-        run.oblige("correspondence:planted family, impl = eval(py_terms) within tolerance", ident_bad == 0,
+        run.oblige("correspondence:planted family and long self pairs (n = 4000), impl = eval(py_terms) within tolerance", ident_bad == 0,
                    "%d of %d" % (ident_bad, len(pl)) if ident_bad else "")
         stat = {}
         for fl in (True, False):
